@@ -111,9 +111,16 @@ func fanGraph(r *common.Rand) *dag.Graph {
 	}
 	manifests = append(manifests, image(-1))
 	n := 3 + r.Intn(7)
+	// wide: most referrers hang on the base image (more referrers than one registry page)
+	wide := r.Chance(1, 2)
+	if wide {
+		n = 5 + r.Intn(6)
+	}
 	for k := 0; k < n; k++ {
 		subj := -1
-		if !r.Chance(1, 8) {
+		if wide && r.Chance(3, 4) {
+			subj = manifests[0]
+		} else if !r.Chance(1, 8) {
 			// bias towards recent manifests: chains
 			if r.Chance(1, 2) {
 				subj = manifests[len(manifests)-1]
